@@ -12,7 +12,7 @@ RULE = ("case = history: a generated program (constant-heavy / general / hand-al
         "(thorough 30) API calls chosen by a Hypothesis RuleBasedStateMachine from {from_code again, to_code again, normalize "
         "again, to_json_data again, from_json_data again on the SAME dict object, from_json_data on a nested sub-document "
         "shared by two parents, mutate a returned JSON document at a generated path, mutate a document after loading it}, "
-        "decode a look-alike code object (equal under code.__eq__, other file name / stack size) and decode the original again}, each on the decoded or the normalized value; invariant after every step (evaluated in the worker): code object "
+        "decode a look-alike code object (equal under code.__eq__; other file name, other stack size, both, or only another line table) and decode the original again}, each on the decoded or the normalized value; invariant after every step (evaluated in the worker): code object "
         "attributes unchanged (R-IDENT vs a marshal copy), JSON argument's canonical text unchanged, CodeData == untouched "
         "twin and same repr, n-th result == first result, nothing raises on the n-th call; evaluation = one step on one "
         "interpreter; non-trivial = history with >=1 repeated call on the same argument and a program that has a function "
@@ -73,7 +73,7 @@ class PureMachine(RuleBasedStateMachine):
     def from_json_then_mutate(self, norm, path, action):
         self.sess.step("from_json_then_mutate", {"norm": norm, "path": path, "action": action})
 
-    @rule(tag=st.integers(1, 3))
+    @rule(tag=st.integers(1, 4))
     def decode_lookalike(self, tag):
         self.sess.step("decode_lookalike", {"tag": tag})
 
@@ -108,7 +108,8 @@ SCRIPT = [["from_json_again", {"norm": False}], ["from_json_again", {"norm": Fal
           ["to_code_again", {"norm": False}], ["to_code_again", {"norm": False}], ["normalize_again", {"norm": False}],
           ["normalize_again", {"norm": False}], ["from_code_again", {}], ["from_code_again", {}],
           ["from_json_then_mutate", {"norm": False, "path": [3, 1], "action": 2}], ["decode_lookalike", {"tag": 1}],
-          ["from_code_again", {}], ["decode_lookalike", {"tag": 2}]]
+          ["from_code_again", {}], ["decode_lookalike", {"tag": 2}], ["decode_lookalike", {"tag": 4}], ["from_code_again", {}],
+          ["decode_lookalike", {"tag": 3}]]
 
 
 def fixed_cases(tier):
